@@ -292,11 +292,13 @@ def run(prop, tier="quick", seed=0, replay=None, selftest=None):
     if (tier == "thorough" or selftest) and not violations:
         kills = {}
         base = _load_corpus(pid) + list(prop.corpus()) + list(prop.generate(random.Random(seed + 5), prop.N_QUICK, "quick"))
+        # only cases that pass on the unmutated code can witness a kill (known-finding cases never do)
+        base_ok = [x["spec"] and x["corr"] for x in evaluate(prop, base)]
         for name, ctx in prop.mutants():
             try:
                 with ctx():
                     vs = evaluate(prop, base)
-                kills[name] = any((not x["spec"]) or (not x["corr"]) for x in vs)
+                kills[name] = any(ok and ((not x["spec"]) or (not x["corr"])) for ok, x in zip(base_ok, vs))
             except Exception as e:
                 kills[name] = f"error: {type(e).__name__}: {e}"[:200]
         missed = [k for k, r in kills.items() if r is not True]
